@@ -166,6 +166,8 @@ See also: fixed, rational
         print at specified display precision
         '''
         v = self._value
+        if Guarded.precision == 0 and Guarded.guard == 0:
+            return str(v)   # integer arithmetic: print as Fixed does
         #
         #  gv trims off the digits we aren't going to display at all.
         #  normally that's the guard digits, but it could be more if display<precision
